@@ -76,7 +76,23 @@ def make_xx(cfg):
     else:
         dims = ("band", "y", "x")
         chunks = (cfg.get("band_chunk", -1), cy, cx)
-    data = da.from_array(pix, chunks=chunks, name=f"src-{cfg.get('name', 'x')}-{random.random()}")
+    name = f"src-{cfg.get('name', 'x')}-{random.random()}"
+    mem = cfg.get("memory", "C")
+    if mem == "C":
+        data = da.from_array(pix, chunks=chunks, name=name)
+    elif mem == "F":                      # Fortran-ordered source array
+        data = da.from_array(np.asfortranarray(pix), chunks=chunks, name=name)
+    elif mem == "transposed":             # stored with reversed axes, lazily transposed back: every block is F-contiguous
+        rev = tuple(range(pix.ndim))[::-1]
+        # chunks are materialised (as for any computed dask array) before the lazy transpose
+        data = da.from_array(np.ascontiguousarray(pix.transpose(rev)), chunks=tuple(chunks)[::-1], name=name) \
+            .map_blocks(np.ascontiguousarray).transpose(rev)
+    elif mem == "view":                   # non-contiguous view of a larger array
+        big = np.zeros(tuple(2 * n for n in pix.shape), dtype=pix.dtype)
+        big[(slice(None, None, 2),) * pix.ndim] = pix
+        data = da.from_array(big[(slice(None, None, 2),) * pix.ndim], chunks=chunks, name=name)
+    else:
+        raise ValueError(mem)
     coords = xr_coords(gbox)
     attrs = {}
     if cfg.get("nodata") is not None:
@@ -147,7 +163,12 @@ def run_pair(cfg, workdir):
 
     a = dict(cfg["a"], name="a")
     xa, pa, _ = make_xx(a)
-    if cfg.get("b") is None:
+    if cfg.get("b") is None and cfg.get("b_nodata") is not None:
+        # the very same dask array, only the nodata attribute (= padding fill) differs
+        b = dict(a, name="b", nodata=cfg["b_nodata"])
+        xb, pb = xa.copy(), pa
+        xb.attrs = dict(xa.attrs, nodata=cfg["b_nodata"])
+    elif cfg.get("b") is None:
         b, xb, pb = a, xa, pa
     else:
         b = dict(cfg["b"], name="b")
